@@ -1,11 +1,12 @@
 package p9
 
 // C14 harness: Rflush only after the flushed request has stopped executing.  A
-// request is blocked inside its backend call (gate), 1-3 flushes are sent (own tag,
-// idle tag, answered tag, chained flush-of-flush, two flushes naming each other),
-// gates are released in every order, with other traffic in between; the reader
-// records, when each Rflush arrives, whether the flushed request was still inside
-// the backend.
+// request is blocked inside a backend call made on its behalf (ReadAt, GetAttr,
+// SetAttr, Walk, Close of a clunked or of a replaced fid), 1-3 flushes are sent
+// (own tag, idle tag, answered tag, chained flush-of-flush, two flushes naming
+// each other), gates are released in every order, with other traffic in between;
+// the reader records, when each Rflush arrives, whether that backend call was
+// still running.
 
 import (
 	"os"
@@ -15,7 +16,7 @@ import (
 func vh14Corpus() []vhloopScn {
 	var l []vhloopScn
 	add := func(name string, nfid int, steps ...vhloopStep) {
-		l = append(l, vhloopScn{Name: name, NFid: nfid, Steps: steps})
+		l = append(l, vhloopScn{Name: name, NConn: 1, NFid: nfid, Steps: steps})
 	}
 	add("own", 1, vhloopSend(vhloopFlush(5, 5)))
 	add("own-while-blocked", 1, vhloopSend(vhloopRead(1, 1)), vhloopSend(vhloopFlush(5, 5)), vhloopRel(1, 0))
@@ -32,18 +33,42 @@ func vh14Corpus() []vhloopScn {
 			vhloopSend(vhloopRead(9, -1)), vhloopRel(1, mode))
 		add(vhloopName("chain-b2b-m%d", mode), 1, vhloopSend(vhloopRead(1, 1), vhloopFlush(2, 1), vhloopFlush(3, 2)), vhloopRel(1, mode))
 	}
+	// the flushed request carries a boundary tag (0, 0xFFFE, NOTAG 0xFFFF); so does the flush
+	for _, t := range []int{0, 65534, 65535} {
+		add(vhloopName("boundary-tag%d", t), 1, vhloopSend(vhloopRead(t, 1)), vhloopSend(vhloopFlush(2, t)), vhloopSend(vhloopRead(9, -1)), vhloopSend(vhloopRead(9, -1)),
+			vhloopSend(vhloopFlush(3, 2)), vhloopSend(vhloopRead(9, -1)), vhloopRel(1, 0), vhloopSend(vhloopRead(t, -1)))
+		add(vhloopName("boundary-flushtag%d", t), 1, vhloopSend(vhloopRead(1, 1)), vhloopSend(vhloopFlush(t, 1)), vhloopSend(vhloopFlush(3, t)), vhloopSend(vhloopRead(9, -1)),
+			vhloopRel(1, 0), vhloopSend(vhloopFlush(t, t)))
+	}
 	// two blocked requests and flushes of both, both release orders
 	for _, ord := range [][]int{{1, 2}, {2, 1}} {
 		add(vhloopName("two-blocked-%d%d", ord[0], ord[1]), 1, vhloopSend(vhloopRead(1, 1)), vhloopSend(vhloopRead(2, 2)),
 			vhloopSend(vhloopFlush(3, 1)), vhloopSend(vhloopFlush(4, 2)), vhloopSend(vhloopFlush(5, 4)),
 			vhloopRel(ord[0], 0), vhloopSend(vhloopRead(9, -1)), vhloopRel(ord[1], 0))
 	}
-	// flushed request types: a clunk blocked in Close
-	add("flush-close", 2, vhloopSend(vhloopClunk(1, 1, true)), vhloopSend(vhloopFlush(2, 1)), vhloopSend(vhloopRead(3, -1)), vhloopRel(vhloopCloseBase+1, 0))
+	// flushed request types: blocked in GetAttr, SetAttr, Walk, in the Close of a clunked fid, and in the Close of
+	// the File a Tattach onto an occupied fid replaces (a backend call made on behalf of that Tattach)
+	kinds := []struct {
+		name string
+		f    vhloopFrame
+	}{
+		{"getattr", vhloopOnFile("getattr", 1, 1, 1, true)},
+		{"setattr", vhloopOnFile("setattr", 1, 1, 1, true)},
+		{"walk", vhloopOnFile("clone", 1, 1, 1, true)},
+		{"close-clunk", vhloopClunkF(1, 1, 1, true)},
+		{"close-replaced-fid", vhloopAttachOver(1, 1, 1, true)},
+	}
+	for _, k := range kinds {
+		add("flush-"+k.name, 2, vhloopSend(k.f), vhloopSend(vhloopFlush(2, 1)), vhloopSend(vhloopFlush(10, 777)), vhloopSend(vhloopFlush(3, 2)),
+			vhloopSend(vhloopFrame{K: "badtype", Tag: 11}), vhloopSend(vhloopFlush(12, 777)), vhloopRel(k.f.Gate, 0), vhloopSend(vhloopFlush(4, 1)))
+	}
 	// the flush's tag is itself in flight: dropped; the flushed request is answered once
 	add("flush-dup-tag", 1, vhloopSend(vhloopRead(1, 1)), vhloopSend(vhloopFlush(1, 1)), vhloopSend(vhloopFlush(2, 1)), vhloopSend(vhloopFlush(2, 2)), vhloopRel(1, 0))
 	// flush, then the flushed tag is re-used after its reply, then flushed again
 	add("flush-reuse", 1, vhloopSend(vhloopRead(1, 1)), vhloopSend(vhloopFlush(2, 1)), vhloopRel(1, 0), vhloopSend(vhloopRead(1, 2)), vhloopSend(vhloopFlush(2, 1)), vhloopRel(2, 0))
+	// a flush on another connection names the tag: tags are per connection, answered at once
+	l = append(l, vhloopScn{Name: "flush-other-conn", NConn: 2, NFid: 1, Steps: []vhloopStep{
+		vhloopSendC(0, vhloopRead(1, 1)), vhloopSendC(1, vhloopFlush(2, 1)), vhloopSendC(0, vhloopFlush(2, 1)), vhloopSendC(1, vhloopRead(1, -1)), vhloopRel(1, 0)}})
 	return l
 }
 
@@ -52,9 +77,7 @@ func TestVerifC14(t *testing.T) {
 	defer out.Close()
 	if p := os.Getenv("VERIF_REPLAY"); p != "" {
 		if scn, ok := vhloopLoadReplay(p); ok {
-			if !vhloopEmit(out, vhloopRun("C14", scn)) {
-				return
-			}
+			vhloopEmit(out, vhloopRun("C14", scn))
 			return
 		}
 	}
@@ -69,7 +92,7 @@ func TestVerifC14(t *testing.T) {
 			return
 		}
 	}
-	nrand := 80
+	nrand := 60
 	if vhThorough() {
 		nrand = 800
 	}
